@@ -22,3 +22,47 @@ Definition dec_code (d : dec) : Z * Z :=
 (* a pointer result of a cache lookup: nil? / the int64 it points to *)
 Definition opt_some {A} (o : option A) : bool := match o with Some _ => true | None => false end.
 Definition opt_z (o : option Z) : Z := match o with Some x => x | None => 0 end.
+
+Definition dec_of_code (c : Z * Z) : dec :=
+  let '(tag, v) := c in
+  match tag with
+  | 0 => DPass
+  | 1 => DBlock None
+  | 2 => DBlock (Some v)
+  | 3 => DWait v
+  | _ => DSpin
+  end.
+
+(* ---- the cache / cell operations PerformChecking performs, on a [metric] ------------------ *)
+
+Definition m_with_time (m : metric) (t : lru Z) : metric :=
+  {| m_time := t; m_tok := m_tok m; m_conc := m_conc m |}.
+Definition m_with_tok (m : metric) (t : lru Z) : metric :=
+  {| m_time := m_time m; m_tok := t; m_conc := m_conc m |}.
+
+(* timeCounter.AddIfAbsent(arg, &v) / tokenCounter.AddIfAbsent(arg, &v) / tokenCounter.Get(arg) *)
+Definition op_time_add (r : rule) (k v : Z) (m : metric) : metric :=
+  m_with_time m (fst (lru_add_if_absent (cache_size r) k v (m_time m))).
+Definition op_tok_add (r : rule) (k v : Z) (m : metric) : metric :=
+  m_with_tok m (fst (lru_add_if_absent (cache_size r) k v (m_tok m))).
+Definition op_tok_get (k : Z) (m : metric) : metric :=
+  m_with_tok m (fst (lru_get k (m_tok m))).
+(* atomic.StoreInt64 through the pointer held for k *)
+Definition op_time_store (k v : Z) (m : metric) : metric := m_with_time m (lru_set k v (m_time m)).
+Definition op_tok_store (k v : Z) (m : metric) : metric := m_with_tok m (lru_set k v (m_tok m)).
+(* a successful atomic.CompareAndSwapInt64(ptr, old, new): the cell held [cur]; it is rewritten iff
+   the expected value is the current one *)
+Definition op_time_cas (k cur old new : Z) (m : metric) : metric :=
+  if old =? cur then op_time_store k new m else m.
+Definition op_tok_cas (k cur old new : Z) (m : metric) : metric :=
+  if old =? cur then op_tok_store k new m else m.
+(* the concurrency branch: ConcurrencyCounter.AddIfAbsent(arg, &0) *)
+Definition op_conc_check (r : rule) (k : Z) (m : metric) : metric := fst (conc_check r m k).
+
+(* ---- ConcurrencyStatSlot: the update of one controller's cell ------------------------------ *)
+Definition m_with_conc (m : metric) (t : lru Z) : metric :=
+  {| m_time := m_time m; m_tok := m_tok m; m_conc := t |}.
+Definition op_conc_get (k : Z) (m : metric) : metric := m_with_conc m (fst (lru_get k (m_conc m))).
+(* atomic.AddInt64(ptr, d) on a cell holding cur *)
+Definition op_conc_add (k cur d : Z) (m : metric) : metric :=
+  m_with_conc m (lru_set k (i64 (cur + d)) (m_conc m)).
